@@ -219,41 +219,75 @@ pub fn b_vector8_pair<S: Src>(s: &mut S) -> Result<(), String> {
 }
 harness!(c31_vector8_pair, b_vector8_pair, 10);
 
-/// tuples of arity <= 2 over scalar values inherit the laws
-fn any_tuple<S: Src>(s: &mut S) -> Tuple {
-    let n = s.u8();
-    s.assume(n <= 2);
-    let a = any_scalar(s);
-    let b = any_scalar(s);
-    let mut v = Vec::with_capacity(2);
-    if n >= 1 {
-        v.push(a);
-    }
-    if n >= 2 {
-        v.push(b);
+/// tuples over scalar values inherit the laws; arities are concrete per harness
+/// (a symbolic Vec length does not finish under CBMC)
+fn tuple_n<S: Src>(s: &mut S, n: usize) -> Tuple {
+    let mut v = Vec::with_capacity(n);
+    let mut i = 0;
+    while i < n {
+        v.push(any_scalar(s));
+        i += 1;
     }
     Tuple::new(v)
 }
-pub fn b_tuple_pair<S: Src>(s: &mut S) -> Result<(), String> {
-    let a = any_tuple(s);
-    let b = any_tuple(s);
+fn tuple_laws(a: Tuple, b: Tuple) -> Result<(), String> {
     let c = a.cmp(&b);
     let e = a == b;
     cover!(e, "equal tuples");
-    check!((c == Ordering::Equal) == e, "tuple cmp==Equal <=> eq");
-    check!(c == b.cmp(&a).reverse(), "tuple antisymmetry");
-    if e {
+    cover!(c == Ordering::Less, "a<b");
+    let mut r = Ok(());
+    if (c == Ordering::Equal) != e {
+        r = Err(String::from("tuple cmp==Equal <=> eq"));
+    } else if c != b.cmp(&a).reverse() {
+        r = Err(String::from("tuple antisymmetry"));
+    } else if e {
         let mut ha = Rec::new();
         let mut hb = Rec::new();
         a.hash(&mut ha);
         b.hash(&mut hb);
-        check!(rec_eq(&ha, &hb), "tuple eq => equal hash input");
+        if !rec_eq(&ha, &hb) {
+            r = Err(String::from("tuple eq => equal hash input"));
+        }
     }
     std::mem::forget(a);
     std::mem::forget(b);
+    r
+}
+pub fn b_tuple1_pair<S: Src>(s: &mut S) -> Result<(), String> {
+    let a = tuple_n(s, 1);
+    let b = tuple_n(s, 1);
+    tuple_laws(a, b)
+}
+harness!(c31_tuple1_pair, b_tuple1_pair, 10);
+pub fn b_tuple2_pair<S: Src>(s: &mut S) -> Result<(), String> {
+    let a = tuple_n(s, 2);
+    let b = tuple_n(s, 2);
+    tuple_laws(a, b)
+}
+harness!(c31_tuple2_pair, b_tuple2_pair, 10);
+pub fn b_tuple12_pair<S: Src>(s: &mut S) -> Result<(), String> {
+    let a = tuple_n(s, 1);
+    let b = tuple_n(s, 2);
+    let c = a.cmp(&b);
+    let r = if c == Ordering::Equal || a == b || c != b.cmp(&a).reverse() {
+        Err(String::from("tuples of different arity must differ consistently"))
+    } else {
+        Ok(())
+    };
+    std::mem::forget(a);
+    std::mem::forget(b);
+    r
+}
+harness!(c31_tuple12_pair, b_tuple12_pair, 10);
+
+/// trivial warm-up harness (used by setup to compile all dependencies once)
+pub fn b_warmup<S: Src>(s: &mut S) -> Result<(), String> {
+    let a = Value::Int32(s.i32());
+    let b = Value::Int32(s.i32());
+    check!(a.cmp(&b) == b.cmp(&a).reverse(), "antisymmetry");
     Ok(())
 }
-harness!(c31_tuple_pair, b_tuple_pair, 10);
+harness!(c31_warmup, b_warmup, 3);
 
 pub fn register(v: &mut Vec<(&'static str, NativeBody)>) {
     v.push(("c31_scalar_pair", b_scalar_pair::<NativeSrc>));
@@ -264,5 +298,8 @@ pub fn register(v: &mut Vec<(&'static str, NativeBody)>) {
     v.push(("c31_string_scalar", b_string_scalar::<NativeSrc>));
     v.push(("c31_vector_pair", b_vector_pair::<NativeSrc>));
     v.push(("c31_vector8_pair", b_vector8_pair::<NativeSrc>));
-    v.push(("c31_tuple_pair", b_tuple_pair::<NativeSrc>));
+    v.push(("c31_tuple1_pair", b_tuple1_pair::<NativeSrc>));
+    v.push(("c31_tuple2_pair", b_tuple2_pair::<NativeSrc>));
+    v.push(("c31_tuple12_pair", b_tuple12_pair::<NativeSrc>));
+    v.push(("c31_warmup", b_warmup::<NativeSrc>));
 }
